@@ -55,6 +55,18 @@ func isCeilDiv8(v ssa.Value) (ssa.Value, bool) {
 }
 
 func checkC12(p *Program, r *Report) {
+	// round 5 (C12-agent5-m3): the extractor walks the tree the builders write: its width function, right-child guard
+	// and recursion tuple are compared with theirs under C11.shape / C11.width; an extractor that invents a right
+	// child for the unpaired last transaction accepts a surplus hash as a leaf at position numTx
+	defer func() {
+		r.Borrow("C11", func(o *Ob) (string, bool) {
+			if (o.Rule == "C11.shape" || o.Rule == "C11.width") && (strings.Contains(o.Func, "PartialBlock") || strings.Contains(o.Construct, "extract") || strings.Contains(o.Construct, "decoder") || strings.Contains(o.Func, "-")) {
+				return "C12.shape", true
+			}
+			return "", false
+		})
+		r.Floor("C12.shape", 2)
+	}()
 	r.Explain = "C12.facts: every non-nil return of ExtractMatches lies, on all paths, behind the rejection tests the statement lists — " +
 		"numTx ≠ 0, numTx ≤ MaxTxnCount, #hashes ≤ numTx, #bits ≥ #hashes, and, evaluated after the traversal, latch clear, ⌈bitsUsed/8⌉ = ⌈#bits/8⌉, " +
 		"hashesUsed = #hashes — each with exactly the stated relation (linear entailment from must-pass-through branch facts). C12.cursor: in the " +
